@@ -1,4 +1,5 @@
 import OH.Model.HolidayDb
+import OH.Model.Inflate
 import OH.Model.Iter
 import OH.Spec.DateSet
 import OH.Driver.Ast
@@ -13,6 +14,10 @@ file and keeps the decoded maps; every later line is answered from them:
   (1) the SPEC — plain membership `(iso code, date) ∈ lines of the file` (no grouping, no calendar,
       no serialization) — is evaluated on the IMPLEMENTATION's dump → `fail <clause> …`;
   (2) the model's `lookup` result is dumped the same way and compared bit for bit → `disagree …`.
+`hol.raw <pub|school>` carries the pair the binary really embeds (region string + the still deflated
+bytes): the Lean model of inflate (`OH.Model.Inflate`) must turn the bytes into EXACTLY the model's
+`encodeDb` of the source file, and the string must be the model's `regionNames` (the hypotheses of
+`OH.Props.C10I.C10_embedded_bytes_*`) → `fail embedded-bytes-…`.
 The reading of the file is IO; everything else is the pure `handle`.
 -/
 namespace OH.Driver.C10
@@ -25,6 +30,8 @@ structure KindData where
   lines : List Line              -- the SPEC: the `(region, date)` pairs of the file
   map : CountryMap               -- the MODEL: `embedded text`
   regions : List String          -- distinct regions of the lines, in order of first appearance
+  names : String                 -- the MODEL's `regionNames (group lines)` (= `HOLIDAYS_*_REGIONS`)
+  encoded : List Nat             -- the MODEL's `encodeDb (group lines)`: the bytes `build.rs` hands to the encoder
 
 structure Loaded where
   pubPath : String
@@ -54,9 +61,14 @@ def loadKind (text : String) : Except String KindData :=
   match parseLines (bufLines text) with
   | .error e => .error e
   | .ok lines =>
-    match embedded text with
+    -- `embedded text` unfolded, keeping the intermediate values
+    let db := group lines
+    match encodeDb db with
     | .error e => .error e
-    | .ok m => .ok ⟨lines, m, dedupKeep (lines.map (·.1))⟩
+    | .ok bytes =>
+      match decodeDb (regionNames db) bytes with
+      | .error e => .error e
+      | .ok m => .ok ⟨lines, m, dedupKeep (lines.map (·.1)), regionNames db, bytes⟩
 
 def mkLoaded (pubPath schoolPath pubText schoolText : String) : Loaded :=
   ⟨pubPath, schoolPath, fileStat pubText, fileStat schoolText, loadKind pubText, loadKind schoolText⟩
@@ -259,6 +271,77 @@ def handleCal (L : Loaded) (cc kind : String) (impl : List String) : Option Stri
       | [p] => if p.startsWith "panic:" then some s!"fail panic impl={p}" else none
       | _ => none
 
+/-! ### the embedded bytes themselves (`hol.raw`) -/
+
+def hexVal (b : UInt8) : Option UInt8 :=
+  if 48 ≤ b && b ≤ 57 then some (b - 48) else if 97 ≤ b && b ≤ 102 then some (b - 87) else none
+
+/-- lower-case hex string ↦ bytes (`-` = no byte) -/
+def unhex (s : String) : Option ByteArray :=
+  if s == "-" then some ByteArray.empty else
+  let u := s.toUTF8
+  if u.size % 2 != 0 then none else
+  (List.range (u.size / 2)).foldl (fun (acc : Option ByteArray) i =>
+    match acc, hexVal (u.get! (2 * i)), hexVal (u.get! (2 * i + 1)) with
+    | some a, some h, some l => some (a.push (16 * h + l))
+    | _, _, _ => none) (some (ByteArray.emptyWithCapacity (u.size / 2)))
+
+def firstDiffNat (a b : List Nat) : Nat :=
+  let rec go (i : Nat) : List Nat → List Nat → Nat
+    | x :: xs, y :: ys => if x == y then go (i + 1) xs ys else i
+    | _, _ => i
+  go 0 a b
+
+/-- the block types of a deflate stream, in order (statistics for the tag; the same walk as
+`Inflate.blocks`) -/
+def blockTypes (d : ByteArray) : (fuel p : Nat) → (out : ByteArray) → (acc : List Nat) → List Nat
+  | 0, _, _, acc => acc.reverse
+  | fuel + 1, p, out, acc =>
+    match Inflate.bits d p 1, Inflate.bits d (p + 1) 2 with
+    | some last, some type =>
+      let sf := 8 * d.size + 1
+      let r := if type == 0 then Inflate.stored d (p + 3) out else if type == 1 then Inflate.fixed d sf (p + 3) out
+        else if type == 2 then Inflate.dynamic d sf (p + 3) out else .error ""
+      match r with
+      | .error _ => (type :: acc).reverse
+      | .ok (p, out) => if last == 1 then (type :: acc).reverse else blockTypes d fuel p out (type :: acc)
+    | _, _ => acc.reverse
+
+/-- `hol.raw <kind> => <regions> <n> <hex>`: the implementation's embedded pair.  Property clause (a
+`fail`: the binary embeds something else than the source data): the bytes inflate (Lean model of
+RFC 1951) to exactly the model's encoding of the source file, the string is the model's region list,
+and `decodeDb` on the pair gives the maps every other `hol.*` verdict is computed from. -/
+def handleRaw (L : Loaded) (kind : String) (impl : List String) : Option String :=
+  match (match kind with | "pub" => some L.pub | "school" => some L.school | _ => none) with
+  | none => none
+  | some (.error e) => some s!"fail load model={e.replace " " "_"}"
+  | some (.ok k) =>
+    match impl with
+    | [regTok, nTok, hexTok] =>
+      match unhex hexTok with
+      | none => some "bad hex"
+      | some z =>
+        if nTok != toString z.size then some "bad arity" else
+        let regions := dec regTok
+        match Inflate.inflateNat z with
+        | .error e => some s!"fail embedded-bytes-do-not-inflate model={e.replace " " "_"} compressed={z.size}"
+        | .ok bytes =>
+          if bytes != k.encoded then
+            some s!"fail embedded-bytes-differ-from-encoding-of-source inflated={bytes.length} model-encoding={k.encoded.length} first-diff=@{firstDiffNat bytes k.encoded}"
+          else if regions != k.names then
+            some s!"fail embedded-bytes-regions-string model={enc (clip k.names)} impl={enc (clip regions)}"
+          else
+            -- `decode_holidays_db` on the pair itself (inflate inside), as in `OH.Props.C10I`
+            match decodeHolidaysDb regions z with
+            | .error e => some s!"fail embedded-bytes-decode model={e.replace " " "_"}"
+            | .ok m =>
+              if m != k.map then some "fail embedded-bytes-decode-differs-from-maps"
+              else
+                let bt := blockTypes z (8 * z.size + 1) 0 ByteArray.empty []
+                let cnt (t : Nat) := (bt.filter (· == t)).length
+                some s!"ok raw-{kind}-{z.size}-{bytes.length} blocks=stored:{cnt 0},fixed:{cnt 1},dynamic:{cnt 2}"
+    | _ => some "bad arity"
+
 def expandDays (specs : List String) : Option (List Int) :=
   specs.foldr (fun s acc =>
     match acc with
@@ -320,6 +403,7 @@ def handle (L : Loaded) (op : String) (args impl : List String) : Option String 
   match op, args with
   | "hol.load", [_, _] => some (handleLoad L impl)
   | "hol.all", [] => some (handleAll impl)
+  | "hol.raw", [kind] => handleRaw L kind impl
   | "hol.country", [cc] => handleCountry cc impl
   | "hol.fromstr", _ => some (handleFromStr args impl)
   | "hol.pdate", _ => some (handlePdate args impl)
